@@ -35,6 +35,8 @@ KINDS = {
                    variants=[([2], [[1]]), ([1], [[]]), ([3], [[]])]),
     'curve3': dict(pd=1, dim=3, cls='Curve', box='CurveContainer',
                    variants=[([2], [[1]]), ([1], [[]]), ([3], [[]])]),
+    'curve4': dict(pd=1, dim=4, cls='Curve', box='CurveContainer',
+                   variants=[([2], [[1]]), ([1], [[]]), ([3], [[]])]),
     'surface': dict(pd=2, dim=3, cls='Surface', box='SurfaceContainer',
                     variants=[([1, 2], [[1], []]), ([1, 1], [[], []]), ([2, 1], [[], []])]),
     'volume': dict(pd=3, dim=3, cls='Volume', box='VolumeContainer',
@@ -76,7 +78,8 @@ def _tau(op, arg, origin, pt, axis):
         return [arg * x for x in pt]
     c, s = arg
     d = [x - o for x, o in zip(pt, origin)]
-    a, b = [k for k in range(3) if k != axis][:2] if len(pt) == 3 else (0, 1)
+    # in the plane of the two coordinates other than `axis` among the first three; further coordinates stay
+    a, b = [k for k in range(3) if k != axis][:2] if len(pt) >= 3 else (0, 1)
     r = list(d)
     r[a] = d[a] * c - d[b] * s
     r[b] = d[b] * c + d[a] * s
@@ -246,6 +249,10 @@ def _instances(tier):
                             out.append(dict(kind=kind, rational=rational, op=op, axis=axis, inplace=inplace, count=count,
                                             big=False))
                     out.append(dict(kind=kind, rational=rational, op=op, axis=axis, inplace=False, count=0, big=True))
+        for rational in (False, True):
+            for op, axis in ops3:
+                for inplace in (False, True):
+                    out.append(dict(kind='curve4', rational=rational, op=op, axis=axis, inplace=inplace, count=0, big=False))
         return out
     k = 0
     for kind in ('curve2', 'curve3', 'surface', 'volume'):
@@ -264,6 +271,15 @@ def _instances(tier):
         for op, axis, inplace in (('translate', None, False), ('scale', None, True), ('rotate', 2, True)):
             out.append(dict(kind=kind, rational=rational, op=op, axis=axis, inplace=inplace, count=0, big=False, grid=True))
     out.append(dict(kind='curve3', rational=True, op='translate', axis=None, inplace=False, count=2, big=False, grid=True))
+    # the shape was sampled on a sub-range of its domain before (its first sampled point is not its start point)
+    for kind, rational, axis, inplace, count in (('curve3', False, 0, False, 0), ('curve2', True, None, True, 0),
+                                                 ('surface', False, 1, False, 0), ('volume', False, 2, True, 0),
+                                                 ('curve3', True, 2, False, 2)):
+        out.append(dict(kind=kind, rational=rational, op='rotate', axis=axis, inplace=inplace, count=count, big=False, grid='partial'))
+    # points of dimension 4: the rotation acts in a coordinate plane of the first three, the fourth coordinate stays
+    for op, axis, inplace, rational in (('rotate', 0, False, False), ('rotate', 1, True, False), ('rotate', 2, False, True),
+                                        ('rotate', 1, False, True), ('translate', None, True, False), ('scale', None, False, True)):
+        out.append(dict(kind='curve4', rational=rational, op=op, axis=axis, inplace=inplace, count=0, big=False))
     # containers of 1-3 shapes
     k = 0
     for kind, counts in (('curve3', (1, 2, 3)), ('curve2', (2,)), ('surface', (1, 3)), ('volume', (2,))):
@@ -337,7 +353,17 @@ def affine_map(ctx, kind, rational, op, axis, inplace, count, big, clamped=True,
                 o.sample_size_u, o.sample_size_v = 2, 2
             else:
                 o.sample_size_u, o.sample_size_v, o.sample_size_w = 2, 2, 2
-        grid_before = [[list(p) for p in sh['obj'].evalpts] for sh in members]
+        if grid == 'partial':
+            q1, q3 = ctx.lit(Fraction(1, 4)), ctx.lit(Fraction(3, 4))
+            for sh in members:
+                if sh['pd'] == 1:
+                    sh['obj'].evaluate(start=q1, stop=q3)
+                elif sh['pd'] == 2:
+                    sh['obj'].evaluate(start_u=q1, stop_u=q3, start_v=q1, stop_v=q3)
+                else:
+                    sh['obj'].evaluate(start_u=q1, stop_u=q3, start_v=q1, stop_v=q3, start_w=q1, stop_w=q3)
+        else:
+            grid_before = [[list(p) for p in sh['obj'].evalpts] for sh in members]
         if rational:
             _ = [(sh['obj'].ctrlpts, sh['obj'].weights) for sh in members]
 
